@@ -41,7 +41,8 @@ def check_cfg(ctx, fx, cfg):
         ok = bool(rs) and all(r.kind == "arg" for r in rs) and sty in ("S", "T")
         ctx.require(ok, "R13.6", "stream-handed-over-unwrapped:%s@%s" % (g["def"], cfg), "the stream given to the loop is not the caller's own stream parameter (type %s, roots %s)" % (sty[:60], sorted(map(str, rs))), fn=g["def"], site=t["l"])
     # counted: Environment::launch_on_stream + the two builder / spawner terminals; the latter are gated on a runtime feature
-    ctx.floor("R13.6", "callers of the stream-loop constructor (%s)" % cfg, n_sites, 1 if cfg == "bare" else 3)
+    # (every caller is judged; terminals sharing a helper lower the count, so the floor only guards against vacuity)
+    ctx.floor("R13.6", "callers of the stream-loop constructor (%s)" % cfg, n_sites, 1 if cfg == "bare" else 2)
     # R13.7 closed list of hand-written poll functions in the crate (a poll that returns Pending without registering a
     # waker stalls the loop): today only `impl Future for Addr`
     polls = sorted((i.get("trait"), i["self"]) for i in fx.d["impls"] if i.get("trait") in ("futures_core::stream::Stream", "core::future::future::Future", "futures_core::future::FusedFuture", "futures_core::stream::FusedStream", "futures_sink::Sink"))
@@ -66,17 +67,35 @@ def check_cfg(ctx, fx, cfg):
         m_idx = [i for i, u in enumerate(up) if "poll_fn::PollFn<" in u and loops.PAYLOAD in u]
         ctx.require(len(s_idx) == 1 and len(m_idx) == 1, "R13.5", inst + ":owns-stream-and-mailbox", "the loop future must own the stream and the mailbox: captures %s" % [u[:40] for u in up], fn=f["def"], site=f["loc"])
         nexts = [(bi, t) for bi, t in b.normal_calls() if (t.get("callee") or "").endswith("StreamExt::next")]
-        ok = len(nexts) == 2
+        got = set()
+        for bi, t in nexts:
+            for r in roots(b, t["args"][0]):
+                got.add(r.site if r.kind == "upvar" else "?" + r.kind)
+        n_next = len(nexts)
+        if not nexts:
+            # the two next() futures may be raced inside an awaited helper that is lent the loop's two sources
+            for hbi, ht in b.normal_calls():
+                h = fx.fn(ht.get("resolved") or ht.get("callee") or "")
+                if h is None or not h.get("is_async"):
+                    continue
+                hco = [c for c in fx.children_of(h["def"]) if c["kind"] == "coroutine"]
+                if len(hco) != 1:
+                    continue
+                hb = ctx.body(fx, hco[0])
+                hn = [(x, y) for x, y in hb.normal_calls() if (y.get("callee") or "").endswith("StreamExt::next")]
+                for _x, y in hn:
+                    n_next += 1
+                    for r in roots(hb, y["args"][0]):
+                        if r.kind == "upvar" and r.site < len(ht["args"]):
+                            for r2 in roots(b, ht["args"][r.site]):
+                                got.add(r2.site if r2.kind == "upvar" else "?" + r2.kind)
+                        else:
+                            got.add("?" + r.kind)
+                if hn:
+                    nexts = nexts or [(hbi, ht)]
+        ok = n_next == 2
         if ok and s_idx and m_idx:
-            want = {s_idx[0], m_idx[0]}
-            got = set()
-            for bi, t in nexts:
-                for r in roots(b, t["args"][0]):
-                    if r.kind == "upvar":
-                        got.add(r.site)
-                    else:
-                        got.add("?" + r.kind)
-            ok = got == want
+            ok = got == {s_idx[0], m_idx[0]}
         ctx.require(ok, "R13.5", inst + ":polls-both-sources", "each iteration must poll exactly the attached stream and the mailbox", fn=f["def"], site=nexts[0][1]["l"] if nexts else f["loc"])
         # R13.2
         sh = [(bi, t) for bi, t in b.normal_calls() if nfa.trait_method(loops.T_SH, "handle")(t)]
@@ -91,17 +110,22 @@ def check_cfg(ctx, fx, cfg):
             ok2 = a_idx and c_idx and all(r.kind == "upvar" and r.site == a_idx[0] for r in ar) and all(r.kind == "upvar" and r.site == c_idx[0] for r in cr)
             ctx.require(ok and ok2, "R13.2", inst + ":item-from-select", "the item handled must be the one the select produced in this iteration, handled by the loop's actor with its context: item origins %s" % sorted(map(str, rs)), fn=f["def"], site=t["l"])
         # R13.3
-        nested = fx.descendants(f["def"])
+        nested = loops.loop_family(fx, f)[1:]
         bad = []
         for g in nested:
+            if g["kind"] != "closure":
+                continue  # select arms are closures; a named helper the loop calls between selects is not an arm
             gb = ctx.body(fx, g)
+            wrapped = {id(t) for _bi, t, _ok in loops.task_invokes(fx, gb)}
             for _, t in gb.normal_calls():
-                if nfa.trait_method(loops.T_SH, "handle")(t) or loops.is_task_invoke(t) or nfa.trait_method(loops.T_SH, "finished")(t) or nfa.trait_method(loops.T_ACTOR, "stopped")(t):
+                if nfa.trait_method(loops.T_SH, "handle")(t) or id(t) in wrapped or nfa.trait_method(loops.T_SH, "finished")(t) or nfa.trait_method(loops.T_ACTOR, "stopped")(t):
                     bad.append((g["def"], t["callee"], t["l"]))
         ctx.require(not bad, "R13.3", inst + ":handlers-outside-select", "a handler runs inside a select arm: the select may drop it half-way when the other arm wins: %s" % bad, fn=f["def"], site=bad[0][2] if bad else f["loc"], detail={"nested_closures": len(nested)})
         # what the arms poll: only Next futures
         arm_polls = []
         for g in nested:
+            if g["kind"] != "closure":
+                continue  # (a helper's own await of the select future is not an arm)
             gb = ctx.body(fx, g)
             for _, t in gb.normal_calls():
                 c = t.get("callee") or ""
